@@ -1660,6 +1660,14 @@ theorem markHistory_undo_bmp (S : Schema) (hts : TextLoop S) (doc : Node) (ops :
     tr'.undo S = .ok doc :=
   markOps_undo_bmp S hts doc ops tr' ⟨hd, hn, hflat⟩ hb h hty
 
+/-- the same-type guard is automatic where the mark types exclude themselves (ProseMirror's default
+    for a mark spec without `excludes`; of the bundled family only `marks-x` has a type that does not:
+    `comment`): a valid document then has no node with two marks of one declared type -/
+theorem sameTypeGuard_of_selfExcluding (S : Schema) (hse : selfExcluding S = true) (d : Node)
+    (hv : S.checkNode d = true) (a b : Nat) (x : Mark) (hx : x.ty < S.marks.size) :
+    (Step.removeMark a b x).sameTypeGuard S d :=
+  sameTypeFree_of_selfExcluding S hse d hv a b x.ty hx
+
 /-! The same-type guard cannot be dropped (finding `C04-same-type-mark-order`).  Schema `doc: para*`,
     `para: text*` (all marks), one mark type `comment` that does not exclude itself; the text of
     `doc(p("ab"))` carries `[comment{id:1}, comment{id:2}]` (a valid, canonical set).
